@@ -1210,8 +1210,8 @@ MANIFEST = {
                    "acknowledgement, refused with the code otherwise), else exactly at the deadline with the caller's TimeoutError or - "
                    "acknowledgement time - a connection error and the connection closed for good, else it is still blocked holding "
                    "everything seen; every acknowledgement is used by at most one write; the alive-check responses written equal the "
-                   "alive-check requests completely received (one per request, each written before the reader handles the next frame, "
-                   "independent of client phase and connection mutex), the reader handles exactly the frames of the stream in order "
+                   "alive-check requests completely received (one per request, each written before the reader handles the next frame and "
+                   "stamped with the instant its request became complete, independent of client phase and connection mutex), the reader handles exactly the frames of the stream in order "
                    "(unknown payload types dropped without breaking it); frames no call accepts (other address pairs, header nacks) "
                    "are conserved in order and never reach a read; a closed connection never has a blocked call, stays closed, "
                    "reads / writes / takes nothing and fails every later call at once; a frame the reader cannot unpack or the end of "
